@@ -54,7 +54,6 @@ pub fn machine_case(
 
 pub fn run(opts: &Opts) -> i32 {
     let mut sink = Sink::new(&opts.out);
-    let _rng = Rng::new(opts.seed);
     let fuel: u64 = if opts.thorough() { 3_000_000 } else { 300_000 };
     // (1) every repository program
     let files = corpus::files();
@@ -64,9 +63,11 @@ pub fn run(opts: &Opts) -> i32 {
         let (class, case) = machine_case(session, &path, None, stdin, &argv, fuel);
         (path, class, case)
     });
+    let mut executables: std::collections::HashSet<std::path::PathBuf> = Default::default();
     for (path, class, case) in results {
         sink.count(&format!("corpus_{}", class.split(':').next().unwrap_or("")));
         if let Some((req, ans)) = case {
+            executables.insert(path.clone());
             let end = ans.split(' ').next().unwrap_or("").to_string();
             sink.count(&format!("corpus_end_{}", end.split(':').next().unwrap_or("")));
             if end.starts_with("stuck:") || end.starts_with("panic:") {
@@ -79,6 +80,45 @@ pub fn run(opts: &Opts) -> i32 {
             } else {
                 sink.case(&format!("# file {}", path.display()).replace(' ', "_").replacen("#_file_", "# file ", 1), "-");
                 sink.case(&req, &ans);
+            }
+        }
+    }
+    // (1b) shape-preserving mutants of the executable repository programs (one name, constructor,
+    // destructor or literal replaced by another of the same lexical shape; a literal changing its
+    // kind): whatever the checker still accepts is run under the stuck-state monitor. This reaches
+    // the checker's rules for everything the maintained programs use - polymorphism, parametrised
+    // data, records, packages - which the generated core language does not.
+    if !opts.rest.iter().any(|a| a == "--skip-corpus-mutants") {
+        let mut rng = Rng::new(opts.seed ^ 0xC01B);
+        let per_file = if opts.thorough() { 60 } else { 4 };
+        let mut jobs: Vec<(std::path::PathBuf, String)> = Vec::new();
+        for (path, text) in corpus::texts() {
+            if !executables.contains(&path) {
+                continue;
+            }
+            for _ in 0..per_file {
+                if let Some(m) = crate::c10::same_shape_mutant(&text, &mut rng) {
+                    jobs.push((path.clone(), m));
+                }
+            }
+        }
+        let results = par_map(jobs, n_threads(), || (), move |_, (path, text)| {
+            // the mutant is an overlay at the file's own path so that its imports resolve; a fresh
+            // session per mutant keeps overlays from leaking into other files' imports
+            let mut session = CompilerSession::default();
+            let stdin: &[u8] = b"7\nhello world\n42\n";
+            let argv = vec!["one".to_string(), "two".to_string()];
+            let (class, case) = machine_case(&mut session, &path, Some(&text), stdin, &argv, fuel);
+            (path, text, class, case.map(|(_, ans)| ans))
+        });
+        for (path, text, class, ans) in results {
+            sink.count(&format!("corpus_mutant_{}", class.split(':').next().unwrap_or("")));
+            if let Some(ans) = ans {
+                let end = ans.split(' ').next().unwrap_or("").to_string();
+                sink.count(&format!("corpus_mutant_end_{}", end.split(':').next().unwrap_or("")));
+                if end.starts_with("stuck:") || end.starts_with("panic:") {
+                    sink.violation("c01-accepted-program-stuck", serde_json::json!({"mutant_of": path.display().to_string(), "end": end, "source": text}));
+                }
             }
         }
     }
